@@ -3,23 +3,158 @@ package main
 // Maps, channels, defer/recover, goroutines, select. (Stage 5/6 features; stubs report "unsupported" until built.)
 
 import (
+	"fmt"
 	"go/ast"
+	"go/token"
 	"go/types"
 )
 
-func (fx *Fx) mapGet(st *State, mv Val, m *types.Map, k Val) Val { panic(unsupported("map read")) }
+// ---------- maps ----------
+// A map value is a reference (nil or allocated) into a heap of map cells {dom, val, size}.
+
+func (fx *Fx) mapSort(m *types.Map) (cell, ks, vs string) {
+	ks, vs = fx.d.sortOf(m.Key()), fx.d.sortOf(m.Elem())
+	cell = "Map_" + sanitize(ks) + "_" + sanitize(vs)
+	fx.d.ensureSort(cell, fmt.Sprintf("(declare-datatypes ((%s 0)) (((mk_%s (dom_%s (Array %s Bool)) (val_%s (Array %s %s)) (size_%s Int)))))", cell, cell, cell, ks, cell, ks, vs, cell))
+	return
+}
+
+func (fx *Fx) mapCell(st *State, mv Val, m *types.Map) (cellTerm, cell string) {
+	cell, _, _ = fx.mapSort(m)
+	h := fx.heapTerm(st, "map_"+cell, cell)
+	c := app("select", h, mv.X)
+	if fx.inQuant == 0 {
+		// facts true of every Go map: size counts the domain
+		st.assume(app("<=", "0", app("size_"+cell, c)))
+		_, ks, _ := fx.mapSort(m)
+		st.assume(fmt.Sprintf("(forall ((k %s)) (! (=> (select (dom_%s %s) k) (> (size_%s %s) 0)) :pattern ((select (dom_%s %s) k))))", ks, cell, c, cell, c, cell, c))
+	}
+	return c, cell
+}
+
 func (fx *Fx) mapHas(st *State, mv Val, m *types.Map, k Val) string {
-	panic(unsupported("map membership"))
+	c, cell := fx.mapCell(st, mv, m)
+	return and(not(app("=", mv.X, "nil")), app("select", app("dom_"+cell, c), k.X))
 }
-func (fx *Fx) mapLen(st *State, mv Val, m *types.Map) string { panic(unsupported("map len")) }
+
+func (fx *Fx) mapGet(st *State, mv Val, m *types.Map, k Val) Val {
+	c, cell := fx.mapCell(st, mv, m)
+	_, _, vs := fx.mapSort(m)
+	has := and(not(app("=", mv.X, "nil")), app("select", app("dom_"+cell, c), k.X))
+	return fx.loaded(st, Val{T: m.Elem(), S: vs, X: fx.share(ite(has, app("select", app("val_"+cell, c), k.X), fx.d.zeroOf(m.Elem())), vs)})
+}
+
+func (fx *Fx) mapLen(st *State, mv Val, m *types.Map) string {
+	c, cell := fx.mapCell(st, mv, m)
+	return ite(app("=", mv.X, "nil"), "0", app("size_"+cell, c))
+}
+
+func (fx *Fx) mapStoreCell(st *State, mv Val, cell, nc string) {
+	h := fx.heapTerm(st, "map_"+cell, cell)
+	st.heap["map_"+cell] = fx.share(app("store", h, mv.X, fx.share(nc, cell)), "(Array Ref "+cell+")")
+}
+
 func (fx *Fx) mapSet(st *State, mv Val, m *types.Map, k, v Val, what string) {
-	panic(unsupported("map write"))
+	if fx.inSpec == 0 {
+		g := not(app("=", mv.X, "nil"))
+		fx.oblige(st, "nil", "mapwrite("+what+")", g, "assignment to an entry of a nil map panics")
+		st.assume(g)
+	}
+	fx.guardMapWrite(st, mv, what)
+	c, cell := fx.mapCell(st, mv, m)
+	dom, val, size := app("dom_"+cell, c), app("val_"+cell, c), app("size_"+cell, c)
+	nsize := ite(app("select", dom, k.X), size, app("+", size, "1"))
+	fx.mapStoreCell(st, mv, cell, app("mk_"+cell, app("store", dom, k.X, "true"), app("store", val, k.X, v.X), nsize))
 }
-func (fx *Fx) mapDelete(st *State, mv Val, m *types.Map, k Val) { panic(unsupported("map delete")) }
-func (fx *Fx) newMap(st *State, t types.Type, m *types.Map) Val  { panic(unsupported("map allocation")) }
+
+func (fx *Fx) mapDelete(st *State, mv Val, m *types.Map, k Val) {
+	fx.guardMapWrite(st, mv, "delete")
+	c, cell := fx.mapCell(st, mv, m)
+	dom, val, size := app("dom_"+cell, c), app("val_"+cell, c), app("size_"+cell, c)
+	nsize := ite(app("select", dom, k.X), app("-", size, "1"), size)
+	nc := app("mk_"+cell, app("store", dom, k.X, "false"), val, nsize)
+	// deleting from a nil map is a no-op
+	h := fx.heapTerm(st, "map_"+cell, cell)
+	st.heap["map_"+cell] = fx.share(ite(app("=", mv.X, "nil"), h, app("store", h, mv.X, fx.share(nc, cell))), "(Array Ref "+cell+")")
+}
+
+func (fx *Fx) newMap(st *State, t types.Type, m *types.Map) Val {
+	cell, ks, vs := fx.mapSort(m)
+	r := fx.alloc(st, "map")
+	empty := app("mk_"+cell, fmt.Sprintf("((as const (Array %s Bool)) false)", ks), fx.d.freshConst("mapval", fmt.Sprintf("(Array %s %s)", ks, vs)), "0")
+	mv := Val{T: t, S: SRef, X: r}
+	fx.mapStoreCell(st, mv, cell, empty)
+	return mv
+}
+
+// execRangeMap: iteration over a map in an arbitrary order. Ghost set visited<ord>: keys already produced.
+// Each iteration produces a key that is in the map now and has not been produced; the loop ends when every key
+// that is in the map now and was in it at the start has been produced (Go: removed entries are not produced,
+// added entries may or may not be).
 func (fx *Fx) execRangeMap(st *State, x *ast.RangeStmt, m *types.Map, label string) []Outcome {
-	panic(unsupported("range over map"))
+	var outs []Outcome
+	mv := fx.eval(st, x.X, false)
+	cell, ks, _ := fx.mapSort(m)
+	ls, ord := fx.loopSpec(x)
+	vname := fmt.Sprintf("visited%d", ord)
+	vsort := fmt.Sprintf("(Array %s Bool)", ks)
+	c0, _ := fx.mapCell(st, mv, m)
+	dom0 := fx.share(app("dom_"+cell, c0), vsort)
+	st.ghost[vname] = Val{S: vsort, X: fmt.Sprintf("((as const %s) false)", vsort)}
+	st.ghost[fmt.Sprintf("dom0_%d", ord)] = Val{S: vsort, X: dom0}
+	fx.checkInvariants(st, ls, ord, "inv-init")
+	ws := fx.collectWrites([]ast.Node{x.Body}, st)
+	for _, e := range []ast.Expr{x.Key, x.Value} {
+		if id, ok := e.(*ast.Ident); ok && id.Name != "_" {
+			if o := fx.pkg.info.ObjectOf(id); o != nil {
+				delete(ws.vars, o)
+			}
+		}
+	}
+	fx.havoc(st, ws)
+	visited := fx.d.freshConst(vname, vsort)
+	st.ghost[vname] = Val{S: vsort, X: visited}
+	fx.assumeInvariants(st, ls)
+	curDom := func(s *State) string {
+		c, _ := fx.mapCell(s, mv, m)
+		return app("dom_"+cell, c)
+	}
+	nonNil := not(app("=", mv.X, "nil"))
+	// exit
+	exit := st.clone()
+	exit.assume(implies(nonNil, fmt.Sprintf("(forall ((k %s)) (! (=> (and (select %s k) (select %s k)) (select %s k)) :pattern ((select %s k))))", ks, curDom(exit), dom0, visited, visited)))
+	outs = append(outs, Outcome{st: exit, kind: kNormal})
+	// one iteration with an arbitrary not yet produced key
+	body := st
+	key := fx.freshVal(body, "rangekey", m.Key())
+	body.assume(nonNil)
+	body.assume(app("select", curDom(body), key.X))
+	body.assume(not(app("select", visited, key.X)))
+	body.ghost[vname] = Val{S: vsort, X: fx.share(app("store", visited, key.X, "true"), vsort)}
+	define := x.Tok == token.DEFINE
+	if x.Key != nil {
+		if p, ok := fx.lhsPlace(body, x.Key, define); ok {
+			fx.assignTo(body, p, key)
+		}
+	}
+	if x.Value != nil {
+		if p, ok := fx.lhsPlace(body, x.Value, define); ok {
+			fx.assignTo(body, p, fx.mapGet(body, mv, m, key))
+		}
+	}
+	for _, o := range fx.exec(body, x.Body) {
+		switch {
+		case o.kind == kNormal || (o.kind == kContinue && (o.label == "" || o.label == label)):
+			fx.checkInvariants(o.st, ls, ord, "inv-step")
+		case o.kind == kBreak && (o.label == "" || o.label == label):
+			outs = append(outs, Outcome{st: o.st, kind: kNormal})
+		default:
+			outs = append(outs, o)
+		}
+	}
+	return outs
 }
+
 func (fx *Fx) newChan(st *State, t types.Type, capT string) Val { panic(unsupported("make(chan)")) }
 func (fx *Fx) chanClose(st *State, c Val, what string)         { panic(unsupported("close")) }
 func (fx *Fx) chanRecv(st *State, x *ast.UnaryExpr, spec bool) Val {
@@ -27,10 +162,6 @@ func (fx *Fx) chanRecv(st *State, x *ast.UnaryExpr, spec bool) Val {
 }
 func (fx *Fx) chanRecv2(st *State, x *ast.UnaryExpr) []Val { panic(unsupported("channel receive")) }
 func (fx *Fx) havocChans(st *State)                         {}
-func (fx *Fx) recoverCall(st *State) Val                    { panic(unsupported("recover")) }
-func (fx *Fx) execDefer(st *State, x *ast.DeferStmt) []Outcome {
-	panic(unsupported("defer"))
-}
 func (fx *Fx) execGo(st *State, x *ast.GoStmt) []Outcome { panic(unsupported("go statement")) }
 func (fx *Fx) execSelect(st *State, x *ast.SelectStmt) []Outcome {
 	panic(unsupported("select"))
